@@ -417,7 +417,13 @@ def gen_table(ctx):
     allok = True
     head = 'From Coq Require Import String.\nFrom Coq Require Import List ZArith Bool.\nFrom Verif.C13 Require Import Model Spec.\nFrom @GENLIB@ Require Import C13_ExprKeys.\n'
     files = [('C13_obl_' + name, head + T.obligation_text(name, stmt)) for name, stmt in obl]
-    res = eval_many(ctx, files, timeout=300)
+    # fast path: all obligations in one file; only when that fails are they compiled one by one to name the failing ones
+    allfile = ('C13_obl_all', head + ''.join(T.obligation_text(name, stmt) for name, stmt in obl))
+    ra = eval_many(ctx, [allfile], timeout=300)[0]
+    if ra[1]:
+        res = [(f[0], True, '') for f in files]
+    else:
+        res = eval_many(ctx, files, timeout=300)
     for (name, stmt), (fname, ok, out) in zip(obl, res):
         ctx.obligations += 1
         ctx.checker_cmds.append('cd coq && coqc -R . Verif gen/%s.v' % fname)
@@ -625,7 +631,7 @@ def cache_sequences(ctx, specs, results, tr_ok):
         seqs += [[(m, 0), (m, 1)], [(m, 1), (m, 0)]]
     gl = sorted(groups)
     rng.shuffle(gl)
-    for g in gl[:(len(gl) if thorough else 30)]:
+    for g in gl[:(len(gl) if thorough else 22)]:
         ids = groups[g]
         base = ids[0]
         for other in rng.sample(ids[1:], min(len(ids) - 1, 6 if thorough else 2)):
